@@ -299,18 +299,53 @@ def _match_blocks(func, rname):
 # C15.2 unique names
 # ---------------------------------------------------------------------------
 
-def _width_of(expr):
-    """(template text, {field: width}) of a '{x:>013s}'.format(...) call."""
+_SPEC_RE = re.compile(r'^(?P<fill>.)?(?P<al>[<>^])?(?P<zero>0)?'
+                      r'(?P<w>\d+)s?$')
+
+
+def _width_of(expr, index=None, mod=None, func=None):
+    """(template text, {field: (width, spec)}) of a '{x:>013s}'.format(...)
+    call, of the builtin format(value, '>013s'), and of a template whose
+    argument was padded by such a call first."""
+    def spec_of(call):
+        if isinstance(call, ast.Call) and K.callee_text(call) == 'format' \
+                and len(call.args) == 2 and index is not None:
+            spec = try_fold(index, mod, call.args[1])
+            if isinstance(spec, str):
+                mt = _SPEC_RE.match(spec)
+                if mt:
+                    return int(mt.group('w')), spec
+        return None
+    if func is not None:
+        expr = K.rexpr(func, expr)
+    direct = spec_of(expr)
+    if direct is not None:
+        return '{0:%s}' % direct[1], {'0': direct}
     if isinstance(expr, ast.Call) and K.is_meth(expr, 'format') and \
             isinstance(K.recv(expr), ast.Constant):
         tmpl = K.recv(expr).value
         widths = {}
+        auto = 0
         for _lit, fld, spec, _c in string.Formatter().parse(tmpl):
-            if fld and spec:
-                mt = re.match(r'^(?P<fill>.)?(?P<al>[<>^])?(?P<zero>0)?'
-                              r'(?P<w>\d+)s?$', spec)
+            if fld is None:
+                continue
+            key = fld
+            if fld == '':
+                key = str(auto)
+                auto += 1
+            if spec:
+                mt = _SPEC_RE.match(spec)
                 if mt:
                     widths[fld] = (int(mt.group('w')), spec)
+                continue
+            arg = None
+            if key.isdigit() and int(key) < len(expr.args):
+                arg = expr.args[int(key)]
+            elif not key.isdigit():
+                arg = K.kwarg(expr, key)
+            inner = spec_of(arg) if arg is not None else None
+            if inner is not None:
+                widths[fld] = inner
         return tmpl, widths
     return None, {}
 
@@ -365,7 +400,7 @@ def _unique(ctx):
     ctx.require(rets, 'return of gen_uniqueid')
     width = None
     for ret in rets:
-        _tmpl, widths = _width_of(ret.value)
+        _tmpl, widths = _width_of(ret.value, index, mod, gen)
         ok = bool(widths) and all(
             '>' in spec and spec.lstrip('>').startswith('0')
             for _w, spec in widths.values())
@@ -393,7 +428,8 @@ def _unique(ctx):
     # _fmt_unique_name
     rets = [s for s in K.walk_no_nested(fmt.node)
             if isinstance(s, ast.Return)]
-    tmpl, widths = _width_of(rets[0].value) if rets else (None, {})
+    tmpl, widths = _width_of(rets[0].value, index, mod, fmt) if rets \
+        else (None, {})
     ctx.ob('C15.2', fmt, rets[0] if rets else None,
            tmpl is not None and tmpl.count('-') == 1 and
            [w for w, _s in widths.values()] == [13],
@@ -452,8 +488,12 @@ def _unique(ctx):
                         out[N.txt(stmt.targets[0])] = N.txt(stmt.value)
         return out
     dt, df = defaults(tb), defaults(fb)
-    ctx.ob('C15.2', tb, None, dt == df and 'alphabet' in dt and
-           dt.get('base') == 'len(alphabet)',
+    # whatever the locals are called (a shared helper's parameters after
+    # inlining): one default is a module constant, the other its length
+    alpha = [k for k, v in dt.items() if v.isupper() or
+             v.lstrip('_').isupper()]
+    ctx.ob('C15.2', tb, None, dt == df and len(alpha) == 1 and
+           'len(%s)' % alpha[0] in dt.values(),
            'encoder and decoder share default alphabet and base: %s / %s'
            % (dt, df), construct='base-n defaults')
 
